@@ -124,6 +124,13 @@ func buildPanicModel(c *Ctx, rel string) *panicModel {
 	}
 	pm := &panicModel{m: m, rel: rel, inPkg: map[*ssa.Function]bool{}, closure: map[*ssa.Function]bool{}, why: map[*ssa.Function]string{}}
 	pm.pkgs = ownPkgsOf(m)
+	// the unexported stateful types are anchors (a renamed one is found by its shape)
+	for _, pk := range pm.pkgs {
+		for name := range statefulTypes {
+			m.LookupType(pk, name)
+		}
+	}
+	m.resolveAllAnchors()
 	for _, p := range pm.pkgs {
 		for _, f := range m.PkgFuncs(p) {
 			pm.fns = append(pm.fns, f)
@@ -773,7 +780,6 @@ func contextsWithin(site ssa.Instruction, fns []*ssa.Function, depth int) []Site
 
 var _ = os.Getenv
 
-
 // statefulTypes: long-lived objects whose fields carry network data from one call to a later one.
 var statefulTypes = map[string]bool{
 	"Scheme": true, "Box": true, "storedMessages": true, "Member": true, "topicPeerView": true, "SilentSynchronizer": true,
@@ -782,7 +788,7 @@ var statefulTypes = map[string]bool{
 
 func statefulOwner(t types.Type) bool {
 	n := namedOf(t)
-	return n != nil && n.Obj().Pkg() != nil && ownPkgPath(n.Obj().Pkg().Path()) && statefulTypes[n.Obj().Name()]
+	return n != nil && n.Obj().Pkg() != nil && ownPkgPath(n.Obj().Pkg().Path()) && statefulTypes[nameBack(n.Obj().Name())]
 }
 
 // mkSite renders the operand twice: as written (for reports) and canonically (for the reason table).
